@@ -16,7 +16,14 @@ META = {
                 "specification's own laws on each, and writes the case list. Every case is concretised into up to 8 members and run "
                 "through the real parser; outcome (ok / err / panic), parsed value and the round trip through the formatter are judged by "
                 "the TLA+ operators on the concrete input. Inputs outside the partition are sampled (length classes around every fixed "
-                "offset, seeded random strings and bytes).",
+                "offset, seeded random strings and bytes). Further families: complete multiaddresses of every composite form (quic, ws, "
+                "ed25519 identity peer id, relayed, without peer id) alone and with prefixes / suffixes (canonical addresses must come back "
+                "unchanged, the peer id kept is the one that makes the address dialable); registry and cache files that stay valid JSON "
+                "while one or two fields of the first node / peer hold invalid or boundary values, on a plain and on a fully populated "
+                "registry (daemon, faucet, auditor, NAT status, custom EVM network); cache files loaded with max_peers 1 (third clean-up "
+                "stage) and with ONE last-seen time at the edge of the time range; the ANT_PEERS list read from the environment; "
+                "RegisterAddress Display; the register signing key of ant-cli (access/keys.rs included by path); accepted port ranges "
+                "checked against non-empty registries; add_node on a loaded registry holding service numbers up to 65535 (u16 edge).",
         "note": "trusted: the driver's concretisation of segments; blsttc / ring primitives; TLC. All strings and byte sequences cannot be "
                 "enumerated: a defect confined to a concrete value inside one class is not found. increment_port_option is public and "
                 "called directly.",
